@@ -186,8 +186,11 @@ def programs(tier: str):
     for kind in ("function", "method"):
         for executor in ("default", "explicit"):
             yield {"family": "reuse", "kind": kind, "executor": executor}
-    for how in ("copy", "second-instance"):
+    for how in ("copy", "second-instance", "equal"):
         yield {"family": "method-copy", "how": how}
+    for how in ("gather", "tasks", "bound-first"):
+        for n in (2, 3):
+            yield {"family": "method-together", "how": how, "n": n}
     import itertools as _it2
 
     for kind in ("function", "method"):
@@ -534,6 +537,10 @@ def _method_copy(program, ch: Chooser) -> Result:
             def who(self):
                 return self
 
+        if program["how"] == "equal":
+            # value semantics: distinct instances that compare (and hash) equal
+            Account.__eq__ = lambda self, other: isinstance(other, Account)  # type: ignore[method-assign]
+            Account.__hash__ = lambda self: 11  # type: ignore[method-assign]
         a = Account("a")
         got: list = []
 
@@ -565,10 +572,66 @@ def _method_copy(program, ch: Chooser) -> Result:
         w.close()
 
 
+def _method_together(program, ch: Chooser) -> Result:
+    """the method is looked up on SEVERAL instances within one step (gather / create_task over
+    objects), the calls run afterwards: each call belongs to the instance it was looked up on"""
+    viols: list[dict] = []
+    w = World(ch)
+    executor = GatedExecutor()
+    w.loop.set_default_executor(executor)
+    n, how = program["n"], program["how"]
+    try:
+
+        class Basket:
+            def __init__(self, name):
+                self.name = name
+
+            @asynchronous
+            def owner(self, tag):
+                return (self, tag)
+
+        baskets = [Basket(f"b{i}") for i in range(n)]
+        got: list = []
+
+        async def main():
+            if how == "gather":
+                got.extend(await asyncio.gather(*[b.owner(i) for i, b in enumerate(baskets)]))
+            elif how == "tasks":
+                ts = [asyncio.ensure_future(b.owner(i)) for i, b in enumerate(baskets)]
+                for t_ in ts:
+                    got.append(await t_)
+            else:  # bound methods taken first, called later in reverse order
+                ms = [b.owner for b in baskets]
+                for i in reversed(range(n)):
+                    got.append(await ms[i](i))
+                got.reverse()
+
+        w.extra_actions = lambda: [
+            Action("release", f"w{rec['n']}", lambda rec=rec: executor.release(rec)) for rec in executor.pending if not rec["released"]
+        ]
+        t = w.task(main(), name="driver")
+        try:
+            w.run()
+        except Livelock:
+            pass
+        if task_failure(t) is not None or len(got) != n:
+            viols.append(viol("transparent", f"method-together/{how}/fails", f"{n} calls return", str(task_failure(t))[:120]))
+        else:
+            wrong = [(i, getattr(r[0], "name", None), r[1]) for i, r in enumerate(got) if r[0] is not baskets[i] or r[1] != i]
+            if wrong:
+                viols.append(viol("arguments", f"method-together/{how}", "self is the instance the method was looked up on, the argument its own", wrong[:3]))
+        return Result(f"method-together/{how}/{n}", True, viols, {"n": len(got), "trace": w.trace[-20:]}, steps=n)
+    finally:
+        executor.drain()
+        w.close()
+
+
 def execute(program, ch: Chooser) -> Result:  # noqa: C901, PLR0912, PLR0915
     fam = program["family"]
     if fam == "meta":
         return _meta(program)
+    if fam == "method-together":
+        return _method_together(program, ch)
     if fam == "method-copy":
         return _method_copy(program, ch)
     if fam == "pooled":
